@@ -53,7 +53,7 @@ def cases(draw):
     # is dropped by the oracle
     for w in WRITERS:
         if w != "afm" and draw(st.booleans()):
-            items.append({"writer": w, "model": draw(S.model_specs(S.JSON, 1, 7)), "foreign": True})
+            items.append({"writer": w, "model": draw(S.model_specs(S.JSON, 1, 7, allow_wide=False)), "foreign": True})
     if False:
         items.append(None)
     envs = [{"hashseed": draw(st.sampled_from(["0", "1", "4242", "derived"])), "locale": "ascii"}]
